@@ -6,6 +6,8 @@
 set -u
 SLOT="$1"; PATCH="$2"; TIER="$3"; shift 3
 W=/dev/shm/iso_$SLOT
+# reviewers and background suites always get the committed harness
+case "$SLOT" in review*|seed*|pres*) ISO_SIM=head;; esac
 mkdir -p $W/out
 rsync -a --delete --exclude target --exclude .git /repo/ $W/repo/
 if [ "${ISO_SIM:-tree}" = "head" ]; then
